@@ -84,10 +84,17 @@ def run_c04(tier, seed):
     stats["server_level"] = dict(keepalive_exchanges=int(c3.get("counts", {}).get("c04_server_level", 0)),
                                  exchanges_after_a_failed_request=int(c3.get("counts", {}).get("c04_server_level_after_failure", 0)),
                                  connections_closed_by_the_server_after_a_failure=int(c3.get("counts", {}).get("c04_server_closed_after_failure", 0)), **st3)
+    # the client's use of the response parser: a response after a failed one on the same pooled connection
+    cbin = vlib.build_harness("client", "plain")
+    res4 = vlib.run_resumable(cbin, ["--prop", "c04c", "--seed", str(seed + 5), "--cases", str(6 if tier == "quick" else 200)], 6,
+                              timeout=300 if tier == "quick" else 7200, work=work, tag="c")
+    c4, d4, s4, st4 = vlib.collect_runs(v, res4, only_prefix="c04:")
+    distinct |= d4
+    stats["client_level"] = dict(sequences=int(c4.get("evaluations", 0)), counts=c4.get("counts", {}), **st4)
     v.assumptions += ["reset protocol as the framework applies it: reset() after Done, after any exception, after a refused feed (413); the client moves the response out before reset()",
                       "no pipelining: segments never span two messages"]
     return _finish(v, work, counters, distinct, samples, stats,
-                   "sequences of 2-5 generated messages (bodyless / Content-Length / chunked, well-formed or near-well-formed, bodies sometimes beyond the parser limit so that the predecessor is abandoned mid-body by 413) on ONE parser in random segmentation, each compared with the same message and segmentation on a fresh parser; at server level (real endpoint, capped reads) keep-alive sequences of three valid requests, and a valid request after a predecessor that the framework answered with an error on the same connection (cookie/Cache-Control/Accept/Content-Length value rejected by a typed parser, handler throwing std::runtime_error or HttpError, unknown method, bad version), each compared with the same request on a fresh connection. distinct = (parser kind, how the predecessor ended, successor shape, outcome)")
+                   "sequences of 2-5 generated messages (bodyless / Content-Length / chunked, well-formed or near-well-formed, bodies sometimes beyond the parser limit so that the predecessor is abandoned mid-body by 413) on ONE parser in random segmentation, each compared with the same message and segmentation on a fresh parser; at server level (real endpoint, capped reads) keep-alive sequences of three valid requests, and a valid request after a predecessor that the framework answered with an error on the same connection (cookie/Cache-Control/Accept/Content-Length value rejected by a typed parser, handler throwing std::runtime_error or HttpError, unknown method, bad version), each compared with the same request on a fresh connection; at client level (real Experimental::Client, one pooled connection, maxResponseSize 256, scripted server) a response after one that the client rejected (too long in the first packet / from the second packet on, bad status line, bad Set-Cookie value, bad chunk size, Content-Length together with chunked) must be the one a fresh connection would deliver. distinct = (parser kind, how the predecessor ended, successor shape, outcome)")
 
 def _fuzz_stage(v, seed, work):
     """Coverage-guided stage (clang 14 libFuzzer + ASan + UBSan).  float-cast-overflow is disabled and signed-integer-overflow
